@@ -271,6 +271,8 @@ pub struct Case {
     pub template: String,
     pub faults: Vec<HFault>,
     pub cfg: WalkCfg,
+    /// bytes in front of the header (every offset in the file is then relative to the header)
+    pub junk: usize,
 }
 
 pub struct C14 {
@@ -306,7 +308,7 @@ impl C14 {
         let mut total = 0u64;
         for s in singles.iter().take(enum_templates) {
             starts.push(total);
-            total += s.len() as u64 * CONFIGS.len() as u64;
+            total += s.len() as u64 * CONFIGS.len() as u64 * 2;
         }
         self.templates = t;
         self.singles = singles;
@@ -327,24 +329,29 @@ impl C14 {
                 Err(k) => k - 1,
             };
             let r = i - self.starts[idx];
+            let junk = if r % 2 == 1 { 13 } else { 0 };
+            let r = r / 2;
             let f = self.singles[idx][(r / CONFIGS.len() as u64) as usize].clone();
             let c = CONFIGS[(r % CONFIGS.len() as u64) as usize];
-            (idx, Case { template: self.templates[idx].0.to_string(), faults: vec![f], cfg: WalkCfg { tolerant: c.0, cached: c.1, stack: c.2 } })
+            (idx, Case { template: self.templates[idx].0.to_string(), faults: vec![f], cfg: WalkCfg { tolerant: c.0, cached: c.1, stack: c.2 }, junk })
         } else {
             let mut rng = Rng::new(run_seed(ctx.verif_seed, "C14", i - self.enum_total));
             let idx = rng.usize(self.templates.len());
             let k = 2 + rng.usize(2);
             let faults = (0..k).map(|_| self.singles[idx][rng.usize(self.singles[idx].len())].clone()).collect();
             let c = CONFIGS[rng.usize(CONFIGS.len())];
-            (idx, Case { template: self.templates[idx].0.to_string(), faults, cfg: WalkCfg { tolerant: c.0, cached: c.1, stack: c.2 } })
+            let junk = *rng.pick(&[0usize, 0, 0, 5, 1000]);
+            (idx, Case { template: self.templates[idx].0.to_string(), faults, cfg: WalkCfg { tolerant: c.0, cached: c.1, stack: c.2 }, junk })
         }
     }
-    fn bytes_of(&self, idx: usize, faults: &[HFault]) -> Vec<u8> {
-        write_doc(&apply(&self.templates[idx].1, faults)).bytes
+    fn bytes_of(&self, idx: usize, faults: &[HFault], junk: usize) -> Vec<u8> {
+        let mut spec = apply(&self.templates[idx].1, faults);
+        spec.junk = b"%junk before the header \n".iter().cycle().take(junk).cloned().collect();
+        write_doc(&spec).bytes
     }
     fn case_json(&self, idx: usize, c: &Case) -> J {
         json!({"property": "C14", "template": c.template, "faults": c.faults.iter().map(|f| f.to_json()).collect::<Vec<_>>(), "tolerant": c.cfg.tolerant, "cached": c.cfg.cached, "stack": c.cfg.stack,
-            "bytes": hex(&self.bytes_of(idx, &c.faults))})
+            "junk": c.junk, "bytes": hex(&self.bytes_of(idx, &c.faults, c.junk))})
     }
 }
 
@@ -353,7 +360,7 @@ impl Check for C14 {
         CheckInfo {
             id: "C14",
             level: "fault_enumeration",
-            rule: "one case = a typed template (page tree; name tree + number tree + outlines; Type0/CID/simple fonts with /W, /Differences, ToUnicode; colour spaces with all four function types; stream /Length references, predictors, LZW, CCITT/DCT image parameters; hand-written object stream with /Extends under an xref stream; two-revision files with classic and stream sections; /Encrypt dictionaries; the 'rich' document) + structure-aware at-rest faults written through the harness's writer: retarget (every reference field x every object incl. itself, object 0 and an undefined number), boundary (every numeric field x {-1, 0, 1, 2^31-1, 2^32-1, 2^64-1}), nest (25 levels), stream /Length reference retargeted, hostile /Size /Prev (incl. self-loop) /Root /W /Index /Length of trailer and xref stream; x {strict, tolerant} x {cached, uncached} x {2 MiB, 8 MiB stack}; walked by the C01 walker under the same meters in a supervised worker process. Enumerated part: the complete single-fault space of all templates (both tiers); plus seeded cases with 2-3 simultaneous faults (100 000 quick, 2 000 000 thorough). Non-trivial = outcome differs from the unfaulted template; distinct = hash of (template, faults, configuration)",
+            rule: "one case = a typed template (page tree; name tree + number tree + outlines; Type0/CID/simple fonts with /W, /Differences, ToUnicode; colour spaces with all four function types; stream /Length references, predictors, LZW, CCITT/DCT image parameters; hand-written object stream with /Extends under an xref stream; two-revision files with classic and stream sections; /Encrypt dictionaries; the 'rich' document) + structure-aware at-rest faults written through the harness's writer: retarget (every reference field x every object incl. itself, object 0 and an undefined number), boundary (every numeric field x {-1, 0, 1, 2^31-1, 2^32-1, 2^64-1}), nest (25 levels), stream /Length reference retargeted, hostile /Size /Prev (incl. self-loop) /Root /W /Index /Length of trailer and xref stream; x {strict, tolerant} x {cached, uncached} x {2 MiB, 8 MiB stack} x {no bytes, some bytes before the header}; walked by the C01 walker under the same meters in a supervised worker process. Enumerated part: the complete single-fault space of all templates (both tiers); plus seeded cases with 2-3 simultaneous faults (100 000 quick, 2 000 000 thorough). Non-trivial = outcome differs from the unfaulted template; distinct = hash of (template, faults, configuration)",
             assumptions: vec![
                 "planting the hostile structure is generation (stated as such); the simulation part is the resource side: stack size, allocator cap and meters, log-event budget, worker process death".into(),
                 "same resource bounds as C01".into(),
@@ -383,20 +390,20 @@ impl Check for C14 {
         }
         let cfg_idx = CONFIGS.iter().position(|c| *c == (case.cfg.tolerant, case.cfg.cached, case.cfg.stack)).unwrap_or(0);
         if !self.base_outcome.contains_key(&(idx, cfg_idx)) {
-            let b = self.bytes_of(idx, &[]);
+            let b = self.bytes_of(idx, &[], 0);
             let r = walk(&b, b"", case.cfg, None);
             for (sig, detail) in verdicts(&r) {
-                let c = Case { template: case.template.clone(), faults: vec![], cfg: case.cfg };
+                let c = Case { template: case.template.clone(), faults: vec![], cfg: case.cfg, junk: 0 };
                 rep.violations.push(Violation { signature: sig, detail, case: self.case_json(idx, &c) });
             }
             self.base_outcome.insert((idx, cfg_idx), r.outcome);
         }
-        let bytes = self.bytes_of(idx, &case.faults);
+        let bytes = self.bytes_of(idx, &case.faults, case.junk);
         let r = walk(&bytes, b"", case.cfg, None);
         let mut h = Hasher64::new();
         h.str(&case.template);
         h.str(&format!("{:?}", case.faults));
-        h.u64(cfg_idx as u64);
+        h.u64(cfg_idx as u64 + 16 * case.junk as u64);
         h.u64(r.outcome);
         h.u64(r.calls);
         h.u64(r.panics.len() as u64 + 1000 * r.meters.len() as u64);
@@ -418,7 +425,7 @@ impl Check for C14 {
             while best.faults.len() > 1 && k < best.faults.len() {
                 let mut c = best.clone();
                 c.faults.remove(k);
-                let rr = walk(&self.bytes_of(idx, &c.faults), b"", c.cfg, None);
+                let rr = walk(&self.bytes_of(idx, &c.faults, c.junk), b"", c.cfg, None);
                 if verdicts(&rr).iter().any(|(s, _)| *s == sig) {
                     best = c;
                 } else {
